@@ -1,0 +1,26 @@
+//go:build verif
+
+package bls
+
+// Decoder schema (property C12), instantiated mechanically by `govc gen-decoders`: a decoder returns nil only if
+// the validating constructor, applied to the decoded fields, returned a nil error. Constructors marked
+// "assumed / purefn" are only assumed to be deterministic functions of their arguments.
+
+//@ func (*Signature).UnmarshalCBOR
+//@   property C12
+//@   let dto = as(res(serde.UnmarshalCBOR(data), 0), *signatureDTO)
+//@   ensures err == nil ==> res(NewSignature(dto.V, dto.Pop), 1) == nil
+
+//@ func (*ProofOfPossession).UnmarshalCBOR
+//@   property C12
+//@   let dto = as(res(serde.UnmarshalCBOR(data), 0), *proofOfPossessionDTO)
+//@   ensures err == nil ==> res(NewProofOfPossession(dto.V), 1) == nil
+
+//@ func NewProofOfPossession
+//@   assumed
+//@   purefn
+
+//@ func NewSignature
+//@   assumed
+//@   purefn
+
